@@ -15,12 +15,48 @@ META = {
     ),
 }
 
+META.update({
+    "C08": dict(
+        technique="exhaustive enumeration of IEEE special values at every input position (deviation-bounded: <= k positions replaced) on real build/set_params/fit/fit_with_statistics runs under a watchdog",
+        text="Every placement of <= k values from a 14-value IEEE alphabet (zeros, subnormal, extremes, +-inf, NaN) at every position of x, y, w, the initial alpha and a later set_params, for every small shape (N incl. N<M, M, P, S), provenance, flavour, scalar width and both build profiles, is run through the complete public pipeline; a panic or a watchdog timeout is a violation. Exhaustive within the alphabet, shapes and k; a fault enumeration, not a proof about all floats.",
+        note="Trusted: wall-clock watchdog (4 s per case that normally takes microseconds) decides 'does not return'. Bounds: k<=1 quick, k<=2 thorough (N<=3 for k=2).",
+        ref="DESIGN.md §5 C08",
+    ),
+    "C09": dict(
+        technique="fault injection at every model-call index (transient and persistent, two set_params failure behaviours) over every caller-driven history up to depth d, a complete fit and fit_with_statistics, on the real LevMarProblem",
+        text="For each scenario the un-faulted run fixes the number n of model calls; the run is repeated with a failure at every index k<n. After every API call the oracle demands absent values after a failed update, None from jacobian() on a failed derivative, bitwise equality with a freshly built problem whenever values are present, Err from fits that saw a failure, and no panic.",
+        note="Trusted: the Faulty wrapper (harness/src/wrap.rs) as a legal model. Bounds: Z1/Z2 (quick) + O'Leary, f32, parallel (thorough); histories over 3 parameter vectors to depth 2/3.",
+        ref="DESIGN.md §5 C09",
+    ),
+    "C12": dict(
+        technique="exhaustive product grid over (N,M,P) shapes incl. N<M+P and N=M+P, solver configurations that force success, both build profiles, plus fault injection at every model call of the statistics phase",
+        text="All shapes M,P<=3, N=M..M+P+3 (and Z1-Z5), f32/f64, hand/built, weights, three ways of reaching a successful fit, in release and overflow-checked arithmetic: Ok implies N>M+P and the defining identities; N<=M+P or a model error during the statistics must give Err without panic.",
+        note="Small-scope: shapes up to 3x3; identities checked to 16 eps scaled.",
+        ref="DESIGN.md §5 C12",
+    ),
+    "C13": dict(
+        technique="exhaustive enumeration of all MxP parameter-incidence patterns (M,P<=3) x weights x noise x scale x width, each a real fit_with_statistics compared with a reference sigma^2 (H^T H)^-1",
+        text="Every incidence pattern in which each parameter is used (shared parameters, invariant functions anywhere) is fitted from the truth; the covariance is compared with an independent Jacobi-SVD reference within the normwise bound of a backward-stable inversion, accessors must be the exact diagonal segments, correlation the normalised covariance.",
+        note="Cases with K eps kappa(H^T H) > 0.25 are executed but not compared (counted separately). Zero-residual fits excluded (0/0 normalisation).",
+        ref="DESIGN.md §5 C13",
+    ),
+    "C14": dict(
+        technique="exhaustive grid over degrees of freedom 1..30 (+100) x probability alphabet x width x weights, against a scipy-generated Student-t table",
+        text="For every nu and every p of the alphabet (incl. values within one ulp of 1 in f32) the band radius must equal t((1+p)/2;nu)*sqrt(j^T Cov j) within 2e-4, be finite, non-negative, non-decreasing in p; illegal p must panic.",
+        note="Trusted: harness/data/tquant.json (scipy.stats.t). The quantile accuracy of the distrs crate (measured <= 1.6e-4) bounds the tolerance.",
+        ref="DESIGN.md §5 C14",
+    ),
+})
+
 NOT_YET = "check not yet registered in this revision (engine under construction, see DESIGN.md §10)"
 NA = {
     "C19": "frequency claim over a continuous noise distribution ('up to sampling error'): deciding it needs Monte-Carlo sampling or an analytic proof, neither of which is an exhaustive enumeration of a bounded behaviour space (DESIGN.md §5 C19); its deterministic ingredients are decided under C12-C14",
 }
 
 ENGINES = [
+    dict(name="stats", path="harness/src/bin/stats.rs", serves_properties=["C12", "C13", "C14"], kind_free_text="product-grid exploration of real fit_with_statistics runs vs reference linear algebra and scipy t-table"),
+    dict(name="nonfinite", path="harness/src/bin/nonfinite.rs", serves_properties=["C08"], kind_free_text="deviation-bounded enumeration of IEEE special values at every input position, watchdogged"),
+    dict(name="faults", path="harness/src/bin/faults.rs", serves_properties=["C09", "C03"], kind_free_text="fault injection at every model-call index over histories, fits and statistics"),
     dict(name="mbuilder", path="harness/src/bin/mbuilder.rs", serves_properties=["C15"], kind_free_text="explicit-state enumeration of builder call sequences vs reference automaton (real SeparableModelBuilder)"),
 ]
 
